@@ -11,7 +11,7 @@ use proptest::prelude::*;
 use serde::{Deserialize, Serialize};
 use std::collections::BTreeMap;
 
-pub const RULE: &str = "(D0) every protected name (16 keywords / inputs / constants / inf / infinity and every name of get_built_in_function_idents()) x 15 binding forms (plain, output, nested in parentheses / list / record / operator chain / conditional, function value; inside a lambda body or do-block; and as a do-block local / parameter that is read back - which must fail or give the bound value): the top-level forms must fail, and in all forms what typeof / to_string / field access observe of the name at top level, and the set of root names, must be unchanged. (D0b) every protected name as the parameter (required, optional, rest) or do-block local of a function that arrives as a JSON input: loading or calling it must fail, or the argument is read back. (D1) every sequence up to length 4 (thorough: 5 over a 29-template core) over an alphabet of statement templates on names a, b: bind, rebind, copy, nested assignment `a = (b = 5) + 1`, self-nested `a = (a = 1) + 1`, list-nested, partially failing `[a = 1, nope]`, `output a`, `output a = 1`, do-block shadowing (also by the block's `return name = ...` statement) / nested assignment inside a do-block / do-block returning a closure, functions whose parameters reuse a / b, calls, closures over a (reading it, rebinding it in a do-block) called at top level and from inside a function whose parameter is called a, assignment inside a lambda body (with parameters; anonymous without parameters, with and without captured names), failing statements, attempts to bind keywords, inputs, constants and built-in names; each statement is evaluated like a REPL line and compared with a bind-once reference model (success / failure, the whole root environment, values). (D2) random sessions of 5-40 generated statements with rebinding attempts and failing statements, checked with history invariants: snapshot monotonicity, no insert into the root environment for a key it holds (hook H2), reserved names never bound, root names are a subset of the names assigned in top-level position. (D3) sessions of 2-7 one-line statements (heap-valued bindings, nested bindings inside lines that fail later, rebinding attempts, allocating lines) typed into the interactive CLI on a pseudo-terminal; afterwards every name is printed and must show what the same lines give in-process. (D4) 6 ways of keeping an anonymous function whose body mentions an unbound name x 7 inner scopes that bind that name to the function value (do-block local, parameter, nested block, block inside a function / a via callback, failing block, via a second local) x 4 names: what the function does when reached through its container (call results and failures, display, self-equality) must be the same before and after, and the name must not appear at top level. (D5) `x = C[(x = V)]` and `output x = C[(x = V)]` for 38 contexts C (operands, list / record items, computed keys, list / record / argument spreads, index and field targets, conditions and branches, prefix / postfix operands, ??, pipelines, calls): the statement must be refused, x keeps the value of the inner binding and the root environment is never overwritten. (D6) a self-recursive named function handed over by value (argument, alias, via / map element) to a parameter list, do-block or callback that binds the function's own name to something else: the function still calls itself. Non-trivial = the history contains a (re)binding attempt on an already bound or reserved name, or a shadowing scope; distinct by the statement sequence.";
+pub const RULE: &str = "(D0) every protected name (16 keywords / inputs / constants / inf / infinity and every name of get_built_in_function_idents()) x 15 binding forms (plain, output, nested in parentheses / list / record / operator chain / conditional, function value; inside a lambda body or do-block; and as a do-block local / parameter that is read back - which must fail or give the bound value): the top-level forms must fail, and in all forms what typeof / to_string / field access observe of the name at top level, and the set of root names, must be unchanged. (D0b) every protected name as the parameter (required, optional, rest) or do-block local of a function that arrives as a JSON input: loading or calling it must fail, or the argument is read back. (D1) every sequence up to length 4 (thorough: 5 over a 29-template core) over an alphabet of statement templates on names a, b: bind, rebind, copy, nested assignment `a = (b = 5) + 1`, self-nested `a = (a = 1) + 1`, list-nested, partially failing `[a = 1, nope]`, `output a`, `output a = 1`, do-block shadowing (also by the block's `return name = ...` statement) / nested assignment inside a do-block / do-block returning a closure, functions whose parameters reuse a / b, calls, closures over a (reading it, rebinding it in a do-block) called at top level and from inside a function whose parameter is called a, assignment inside a lambda body (with parameters; anonymous without parameters, with and without captured names), failing statements, attempts to bind keywords, inputs, constants and built-in names; each statement is evaluated like a REPL line and compared with a bind-once reference model (success / failure, the whole root environment, values). (D2) random sessions of 5-40 generated statements with rebinding attempts and failing statements, checked with history invariants: snapshot monotonicity, no insert into the root environment for a key it holds (hook H2), reserved names never bound, root names are a subset of the names assigned in top-level position. (D3) sessions of 2-7 one-line statements (heap-valued bindings, nested bindings inside lines that fail later, rebinding attempts, allocating lines) typed into the interactive CLI on a pseudo-terminal; afterwards every name is printed and must show what the same lines give in-process. (D4) 6 ways of keeping an anonymous function whose body mentions an unbound name x 7 inner scopes that bind that name to the function value (do-block local, parameter, nested block, block inside a function / a via callback, failing block, via a second local) x 4 names: what the function does when reached through its container (call results and failures, display, self-equality) must be the same before and after, and the name must not appear at top level. (D5) `x = C[(x = V)]` and `output x = C[(x = V)]` for 38 contexts C (operands, list / record items, computed keys, list / record / argument spreads, index and field targets, conditions and branches, prefix / postfix operands, ??, pipelines, calls): the statement must be refused, x keeps the value of the inner binding and the root environment is never overwritten. (D5 also has heap values bound inside an operand of `+`, an index, a spread or a built-in that builds a new value from them.) (D6, further) functions re-entered while they are running, past a do-block local / parameter / callback parameter named like a value they captured, still read the captured value. (D6) a self-recursive named function handed over by value (argument, alias, via / map element) to a parameter list, do-block or callback that binds the function's own name to something else: the function still calls itself. Non-trivial = the history contains a (re)binding attempt on an already bound or reserved name, or a shadowing scope; distinct by the statement sequence.";
 pub const ASSUMPTIONS: &[&str] = &[
     "hook H2 (thread-local log of Environment::insert) is a monitor only; with the feature off the code is unchanged",
     "a statement that fails half-way may keep the bindings its already-evaluated inner assignments made (the statement only requires that bound names never change)",
@@ -344,6 +344,12 @@ pub const OWN_NAME: &[(&str, &str)] = &[
     ("do {\n  nfac = 4\n  return ffac()\n}", "6"),
     ("((nfac) => ffac())(5)", "6"),
     ("([5] via (nfac => ffac()))[0]", "6"),
+    // a function re-entered while it is running, past a scope that binds a name it captured
+    ("frr(1)", "10"),
+    ("frr(3)", "10"),
+    ("fvia(1)", "23"),
+    ("((kcap) => frr(1))(5)", "10"),
+    ("fgo(1)", "10"),
 ];
 
 /// (right-hand side with the inner binding, source of the value the inner binding gives x)
@@ -386,6 +392,22 @@ pub const SELF_NESTED: &[(&str, &str)] = &[
     ("[[[(x = 1)]]]", "1"),
     ("{a: {b: [(x = 1)]}}", "1"),
     ("(x = 1) ^ 2 ^ 1", "1"),
+    // heap values bound inside an operand of an operator / built-in that builds a new value from them
+    ("(x = \"ab\") + \"c\"", "\"ab\""),
+    ("(x = \"ab\") + \"c\" + \"d\"", "\"ab\""),
+    ("\"z\" + (x = \"ab\")", "\"ab\""),
+    ("(y => y)(x = \"ab\") + \"c\"", "\"ab\""),
+    ("(x = [\"k\", \"l\"])[0] + \"!\"", "[\"k\", \"l\"]"),
+    ("[(x = \"1\") + \"2\", nope]", "\"1\""),
+    ("(x = [1, 2]) + 1", "[1, 2]"),
+    ("(x = [1, 2]) + [3, 4]", "[1, 2]"),
+    ("uppercase(x = \"ab\")", "\"ab\""),
+    ("reverse(x = [3, 1, 2])", "[3, 1, 2]"),
+    ("sort(x = [3, 1, 2])", "[3, 1, 2]"),
+    ("concat((x = [1]), [2])", "[1]"),
+    ("{...(x = {a: 1}), a: 2}", "{a: 1}"),
+    ("[...(x = [1]), 2]", "[1]"),
+    ("join((x = [\"a\", \"b\"]), \"-\") + \"!\"", "[\"a\", \"b\"]"),
 ];
 
 /// (setup statements, expression that reaches the function)
@@ -674,7 +696,7 @@ impl Check for History {
                 ctx.nontrivial(hash_str(src));
                 let sess = Sess::new();
                 sess.set_inputs(&[]);
-                for l in ["nfac = 3", "ffac = () => nfac!", "fdo = x => do {\n  y = (tnest = x * 2) + tnest\n  return y\n}", "frec = n => do {\n  y = if n == 0 then 0 else (tnest = n * 2) + frec(n - 1)\n  return y\n}", "count = n => if n <= 0 then 0 else 1 + count(n - 1)", "alias = count", "even = n => if n == 0 then true else odd(n - 1)", "odd = n => if n == 0 then false else even(n - 1)"] {
+                for l in ["kcap = 10", "frr = (n) => if n == 0 then kcap else do {\n  kcap = 99\n  return frr(n - 1)\n}", "fvia = (n) => if n == 0 then kcap else sum([1, 2] via (kcap => fvia(n - 1) + kcap))", "ggo = (kcap) => fgo(kcap)", "fgo = (n) => if n == 0 then kcap else ggo(n - 1)", "nfac = 3", "ffac = () => nfac!", "fdo = x => do {\n  y = (tnest = x * 2) + tnest\n  return y\n}", "frec = n => do {\n  y = if n == 0 then 0 else (tnest = n * 2) + frec(n - 1)\n  return y\n}", "count = n => if n <= 0 then 0 else 1 + count(n - 1)", "alias = count", "even = n => if n == 0 then true else odd(n - 1)", "odd = n => if n == 0 then false else even(n - 1)"] {
                     if let Err(e) = sess.obs(l) {
                         fail!("own-name:setup", "`{}` fails: {:?}", l, e);
                     }
